@@ -136,9 +136,9 @@ E_REFS = {
     "row_id.fmax(x)": (("row_id", "x"), lambda r, x: (x if r is None else (r if x is None else max(r, x)))),
     "row_id.fmin(x)": (("row_id", "x"), lambda r, x: (x if r is None else (r if x is None else min(r, x)))),
     "a.if_else(x, y)": (("a", "x", "y"), lambda a, x, y: None if a is None else (x if a else y)),
-    "z.is_bad()": (("z",), lambda z: z is None),
+    "z.is_bad()": (("z",), lambda z: z is None or math.isinf(z)),
     "row_id.is_in({1, 3})": (("row_id",), lambda r: UNSPEC if r is None else (r in (1, 3))),
-    "y.is_inf()": (("y",), lambda y: UNSPEC if y is None else False),
+    "y.is_inf()": (("y",), lambda y: UNSPEC if y is None else math.isinf(y)),
     "y.is_nan()": (("y",), lambda y: UNSPEC if y is None else False),
     "z.is_null()": (("z",), lambda z: z is None),
     "x.log()": (("x",), nprop(math.log, lambda x: x > 0)),
@@ -192,16 +192,22 @@ DATES = ["2020-01-01", "2020-02-29", "2021-12-31", "2019-07-04", "2000-03-15", "
 TIMES = ["2020-01-01 00:00:00", "2020-02-29 23:59:59", "2021-12-31 12:30:00", "2019-07-04 06:07:08"]
 
 
+INF_OK = {"z %?% 2", "z.coalesce(2)", "z.coalesce_0()", "(z + 1) %?% (x * 2)", "y.is_inf()", "z.is_bad()", "z.is_null()", "y.is_nan()",
+          "z.abs()", "-x", "z.sign()", "row_id.fmax(x)", "row_id.fmin(x)", "row_id.maximum(x)", "row_id.minimum(x)",
+          "a.if_else(x, y)", "a.where(x, y)", "x < y", "x > y"}
+
+
 def gen_frame(rng, kind):
     n = {"empty": 0, "single": 1}.get(kind, rng.randint(8, 12))
     nullp = {"nonull": 0.0, "allnull": 1.0}.get(kind, 0.2)
+    pool = FPOOL + ([float("inf"), float("-inf"), float("inf")] * 2 if kind == "inf" else [])
     rows = []
     for i in range(n):
-        x = None if rng.random() < nullp else rng.choice(FPOOL)
-        y = None if rng.random() < nullp else (x if (x is not None and rng.random() < 0.15) else rng.choice(FPOOL))
+        x = None if rng.random() < nullp else rng.choice(pool)
+        y = None if rng.random() < nullp else (x if (x is not None and rng.random() < 0.15) else rng.choice(pool))
         rows.append({
             "row_id": i, "q": rng.choice([1, 2, 3, 5]), "x": x, "y": y,
-            "z": None if rng.random() < max(nullp, 0.3) else rng.choice(FPOOL),
+            "z": None if rng.random() < max(nullp, 0.3) else rng.choice(pool),
             "a": None if (kind == "allnull") else (rng.random() < 0.5), "b": None if (kind == "allnull") else (rng.random() < 0.5),
             "g": None if rng.random() < nullp else rng.choice(["a", "b", "z", "other", "ab c"]),
             "s2": None if rng.random() < nullp else rng.choice(["u", "vw", "", "it's"]),
@@ -371,6 +377,11 @@ def judge(b, entry, rows, kind, sq, pg):
     if ops is None:
         return None
     ok = set()
+    if kind == "inf":
+        # +-infinity as an ordinary value: judged on the in-memory executors only (SQLite cannot carry it)
+        if expr not in INF_OK:
+            return None
+        b.count("infinity_frames", expr)
     claims = {"pandas": entry["Pandas"] == "y", "sqlite": entry["SQLiteModel"] == "y" and not is_date,
               # the surrogate cannot parse PostgreSQL's '+infinity' literals used by is_inf / is_bad
               "pg-surrogate": entry["PostgreSQLModel"] == "y" and not is_date and entry["op"] not in ("is_inf", "is_bad", "is_nan"),
@@ -378,6 +389,8 @@ def judge(b, entry, rows, kind, sq, pg):
     cj = {"expression": expr, "op_class": entry["op_class"], "rows": rows, "frame_kind": kind}
     for be in ("pandas", "sqlite", "pg-surrogate", "polars"):
         if not claims[be]:
+            continue
+        if kind == "inf" and be in ("sqlite", "pg-surrogate"):
             continue
         try:
             if be == "pandas":
@@ -455,7 +468,7 @@ def run_batch(seed, batch, tier):
         if idx % nb != batch % nb:
             continue
         for k in range(N[tier]):
-            kind = ["mixed", "mixed", "nonull", "mixed", "empty", "allnull", "single", "mixed"][k % 8]
+            kind = ["mixed", "inf", "nonull", "mixed", "empty", "allnull", "single", "mixed"][k % 8]
             try:
                 with time_limit(60):
                     rows = gen_frame(b.rng, kind)
